@@ -16,7 +16,7 @@ RULE = ('cases = role x state x event x primitive variant x ARTIM-prior x route 
         'running loop); every one of the 247 cells is evaluated for both roles; non-trivial = the '
         'cell is one of the 123 defined cells; distinct = distinct (role, state, event, variant, '
         'timer-prior, route)'
-        '; every cell with bytes of a following PDU in the receive buffer; every writing cell also with a transport failing at the write; Sta13 also reached through AA-1/AA-7/AA-8; route slow-transport: (Sta6,Evt9) with a peer that does not read for 5.5-61 s')
+        '; every cell with bytes of a following PDU in the receive buffer; every writing cell also with a transport failing at the write; Sta13 also reached through AA-1/AA-7/AA-8; route slow-transport: (Sta6,Evt9) with a peer that does not read for 5.5-61 s; closing cells with the connection reset right behind the PDU')
 ASSUMPTIONS = ['R-fsm transcribed from PS3.8 Table 9-10 (123 defined cells, asserted)',
                'observation through current_state, timer._start_time, dul_socket, to_service_user '
                'and the bytes that reached the peer endpoint',
@@ -114,6 +114,11 @@ def cases(tier, seed):
                     # has had no other effect by then
                     yield dict(role=role, state=state, event=event, var=var, timer='run',
                                route='assign', wfail=True)
+                    if event in ('Evt4', 'Evt13', 'Evt16', 'Evt18'):
+                        # the peer has reset the connection right behind its PDU (SO_LINGER 0,
+                        # killed process): a closing action still does what its cell says, once
+                        yield dict(role=role, state=state, event=event, var=var, timer='run',
+                                   route='assign', rst_behind=True)
         for hname in HIST[role]:
             pending = hname.endswith('p')
             for event in rm.EVENTS:
@@ -231,7 +236,7 @@ def run_case(case):
                                       case['route'])
     requestor = role == 'requestor'
     exp = rm.effects(state, event, requestor)
-    key = '%s/%s/%s/%s/%s/%s' % (role, state, event, var, case['timer'], route)
+    key = '%s/%s/%s/%s/%s/%s%s' % (role, state, event, var, case['timer'], route, '/rst' if case.get('rst_behind') else '')
     res = {'violations': [], 'stats': {}, 'nontrivial': exp is not None, 'sched_sig': key,
            'sets': {'cells_evaluated': ['%s,%s' % (state, event)]}}
     if exp is not None:
@@ -287,6 +292,11 @@ def run_case(case):
         had_buf = hasattr(prov, 'raw_pdu') and isinstance(prov.raw_pdu, (bytes, bytearray))
         if had_buf:
             prov.raw_pdu = marker
+        if case.get('rst_behind'):
+            if exp is None or exp['action'] not in ('AE-4', 'AR-3', 'AA-2', 'AA-3') or \
+                    prov.dul_socket is None:
+                return res
+            rig.peer_rst_behind()
         wrote = []
         if case.get('wfail') and prov.dul_socket is not None:
             sock_ = prov.dul_socket
